@@ -26,6 +26,28 @@ def shift(arr, k):
     return t.app('shift', t.ARR, arr, k)
 
 
+def _shift_axioms(x):
+    i = t.var('sh!', t.INT)
+    return [t.forall([i], t.eq(t.select(x, i), t.select(x.args[0], t.add(x.args[1], i))), pats=[[t.select(x, i)]])]
+
+
+_prelude.AXIOMATIZED['shift'] = _shift_axioms
+# awrite(buf, len, pos, data, doff, n): the buffer of an io.BytesIO after writing n > 0 bytes data[doff:doff+n] at pos
+_prelude.declare_fun('awrite', [t.ARR, t.INT, t.INT, t.ARR, t.INT, t.INT], t.ARR)
+
+
+def _awrite_axioms(x):
+    buf, ln, pos, d, doff, n = x.args
+    i = t.var('aw!', t.INT)
+    inside = t.and_(t.le(pos, i), t.lt(i, t.add(pos, n)))
+    gap = t.and_(t.le(ln, i), t.lt(i, pos))
+    return [t.forall([i], t.eq(t.select(x, i), t.ite(inside, t.select(d, t.add(doff, t.sub(i, pos))), t.ite(gap, t.ZERO, t.select(buf, i)))),
+                     pats=[[t.select(x, i)]])]
+
+
+_prelude.AXIOMATIZED['awrite'] = _awrite_axioms
+
+
 def shift_axiom(arr, k):
     i = t.var('i!', t.INT)
     sh = t.app('shift', t.ARR, arr, k)
@@ -184,12 +206,8 @@ def do_write(eng, ref, o, d, st):
     if z is not None:
         out.append((z, VInt(t.ZERO)))
     if nz is not None:
-        buf2 = fresh('wbuf', t.ARR)
-        i = t.var('i!', t.INT)
-        inside = t.and_(t.le(o.pos, i), t.lt(i, t.add(o.pos, n)))
-        gap = t.and_(t.le(o.len, i), t.lt(i, o.pos))
-        body = t.eq(t.select(buf2, i), t.ite(inside, d.at(t.sub(i, o.pos)), t.ite(gap, t.ZERO, t.select(o.buf, i))))
-        nz.assume(t.forall([i], body, pats=[[t.select(buf2, i)]]))
+        # the new buffer is a deterministic term; its pointwise definition is added wherever the term occurs (prelude.AXIOMATIZED)
+        buf2 = t.app('awrite', t.ARR, o.buf, o.len, o.pos, d.arr, d.off, n)
         nz.put(ref, o.replace(buf=buf2, ln=t.imax(o.len, t.add(o.pos, n)), pos=t.add(o.pos, n)))
         out.append((nz, VInt(n)))
     return out
